@@ -3,7 +3,8 @@
 KINDS = ['pass', 'fail_output', 'fail_exc', 'all_skipped', 'partly_skipped', 'expected_exc', 'disabled', 'comment_only',
          'note_then_skip', 'skip_then_note', 'fail_directive_first', 'fail_compile_first', 'late_disable_word', 'warn_then_fail', 'warn_then_pass', 'requires_unmet_block',
          'comment_bare_prompt', 'comment_bare_prompt_prose', 'binds_then_fails', 'reads_leaked_name', 'promptless_google_block',
-         'expected_exc_detail_ignored', 'expected_exc_type_only', 'expected_exc_wrong_type_detail_ignored']
+         'expected_exc_detail_ignored', 'expected_exc_type_only', 'expected_exc_wrong_type_detail_ignored',
+         'skip_on_continuation_then_fail', 'skip_on_continuation_then_pass']
 # kinds used by the native-runner checks only (under pytest a first line '# pytest.skip' is a force-disable word)
 NATIVE_ONLY_KINDS = ['pytest_skip_comment']
 # kinds whose verdict is not fixed by construction but must be the SAME in both front ends: a doctest that needs a module which is
@@ -52,6 +53,11 @@ def doc_lines(kind, n):
     if kind == 'expected_exc_wrong_type_detail_ignored':
         # the detail does not count, the type does: an ordinary failure of this doctest
         return ['>>> # xdoctest: +IGNORE_EXCEPTION_DETAIL', '>>> raise ValueError', 'Traceback (most recent call last):', 'KeyError: %d' % n]
+    if kind == 'skip_on_continuation_then_fail':
+        # an inline +SKIP on the LAST line of a statement of several lines skips that statement, not its neighbours
+        return ['>>> q%d = 1' % n, '>>> x%d = [1,' % n, '...        2]  # xdoctest: +SKIP', ">>> raise ValueError('still raised %d')" % n]
+    if kind == 'skip_on_continuation_then_pass':
+        return ['>>> x%d = [1,' % n, '...        2]  # xdoctest: +SKIP', ">>> print('after %d')" % n, 'after %d' % n]
     if kind == 'disabled':
         return ['>>> ' + DISABLE_WORDS[n % len(DISABLE_WORDS)], ">>> print('d%d')" % n, 'WRONG%d' % n]
     if kind == 'note_then_skip':
@@ -99,7 +105,8 @@ def doc_lines(kind, n):
 VERDICT = {'pass': 'passed', 'fail_output': 'failed', 'fail_exc': 'failed', 'all_skipped': 'skipped',
            'partly_skipped': 'passed', 'expected_exc': 'passed', 'disabled': 'failed', 'comment_only': 'skipped',
            'note_then_skip': 'skipped', 'skip_then_note': 'skipped', 'fail_directive_first': 'failed', 'fail_compile_first': 'failed', 'late_disable_word': 'passed', 'warn_then_fail': 'failed', 'warn_then_pass': 'passed', 'pytest_skip_comment': 'failed', 'requires_unmet_block': 'skipped', 'binds_then_fails': 'failed', 'reads_leaked_name': 'failed', 'promptless_google_block': 'skipped', 'comment_bare_prompt': 'skipped', 'comment_bare_prompt_prose': 'skipped', 'chdir_then_pass': 'passed', 'chdir_then_fail': 'failed',
-           'expected_exc_detail_ignored': 'passed', 'expected_exc_type_only': 'passed', 'expected_exc_wrong_type_detail_ignored': 'failed'}
+           'expected_exc_detail_ignored': 'passed', 'expected_exc_type_only': 'passed', 'expected_exc_wrong_type_detail_ignored': 'failed',
+           'skip_on_continuation_then_fail': 'failed', 'skip_on_continuation_then_pass': 'passed'}
 
 
 def module_source(kinds, layout='functions'):
